@@ -2,6 +2,7 @@
 mod cli;
 mod common;
 mod families;
+mod fragments;
 mod gen;
 mod selfcheck;
 mod tokenlevel;
@@ -107,6 +108,7 @@ fn main() {
         "c18" => tokenlevel::c18(&args),
         "c08" => tokenlevel::c08(&args),
         "c19" => tokenlevel::c19(&args),
+        "c13cb" => fragments::c13cb(&args),
         "replay" => families::replay(&args),
         "timing" => {
             families::timing(&args);
